@@ -27,7 +27,12 @@ fn lengths(ctx: &Ctx, idx: u64) -> Vec<usize> {
     } else if idx < g * g + g {
         vec![GRID[(idx - g * g) as usize]]
     } else {
-        let n = 1 + ctx.plan(5) as usize;
+        // mostly 1..5 frames; one case in sixteen has many short frames (MORE on every frame but
+        // the last, whatever the position)
+        let n = if ctx.plan(16) == 1 { 6 + ctx.plan(295) as usize } else { 1 + ctx.plan(5) as usize };
+        if n > 5 {
+            return (0..n).map(|_| ctx.plan_pick(&[0usize, 0, 1, 2, 7, 255, 256])).collect();
+        }
         (0..n)
             .map(|_| match ctx.plan(12) {
                 0..=5 => GRID[ctx.plan(g) as usize],
@@ -316,7 +321,7 @@ pub fn def() -> PropDef {
     PropDef {
         id: "C01",
         level: "exploration",
-        rule: "wire_out / wire_in: the case index enumerates every pair of grid lengths {0,1,2,254,255,256,257,8191,8192,8193,65535,65536,131071,131072,131073} as a 2-frame message and every single grid length, for each emitting (8) resp. receiving (7) socket kind; further indices draw 1..5 frames with grid/random lengths and, rarely, 1-4 MiB; each case runs through a real socket under drawn write/read segmentation and back-pressure; hello: all 9 socket types x identity {none, 1, 255 bytes} x {accepting, connecting}; every case is non-trivial (it judges one message or handshake); distinct = distinct (case, plan, schedule, transport)",
+        rule: "wire_out / wire_in: the case index enumerates every pair of grid lengths {0,1,2,254,255,256,257,8191,8192,8193,65535,65536,131071,131072,131073} as a 2-frame message and every single grid length, for each emitting (8) resp. receiving (7) socket kind; further indices draw 1..5 frames with grid/random lengths and, rarely, 1-4 MiB, or (one in sixteen) 6..300 short frames; each case runs through a real socket under drawn write/read segmentation and back-pressure; hello: all 9 socket types x identity {none, 1, 255 bytes} x {accepting, connecting}; every case is non-trivial (it judges one message or handshake); distinct = distinct (case, plan, schedule, transport)",
         assumptions: &["input space enumerated over the boundary grid only, sampled beyond it", "the tap oracle is an independent RFC-23 decoder and encoder sharing no code with the library"],
         strata: vec![
             Stratum { name: "wire_out", quick: enumerated + 8_000, thorough: (enumerated + 300_000) * 5, exhaustive: (false, false), run: wire_out, what: "socket -> wire, byte-exact against the reference encoder" },
